@@ -3,7 +3,7 @@ import re
 
 from ..cfgq import (aggregates, bool_edges, cond_tree, place_key, reach_consistent, result_variant_blocks,
                     variant_edges, switches, stmt_loc)
-from ..facts import AnchorError, Origins, method_name, peel, strip_mods, callee_name, strip_generics
+from ..facts import AnchorError, Origins, method_name, mname, peel, strip_mods, callee_name, strip_generics
 
 
 def _exec_all(ctx):
@@ -398,10 +398,91 @@ def r14_6(ctx):
               "compile_script no longer rejects per-test timeouts it cannot honour (they would be silently ignored)")
 
 
+def r14_7(ctx):
+    """the remaining document time is Some(..) whenever a deadline exists: it is derived from the deadline only through
+    Option::map with total closures (duration_since / saturating_duration_since saturate to zero), never and_then / filter /
+    checked_* (which would turn an elapsed deadline into `no limit`)"""
+    prog = ctx.prog
+    f = _exec_all(ctx)
+    o = Origins(f)
+    # the candidate with is_global: true
+    glob = None
+    for cb in prog.closures_of(f):
+        for ab, si, rv in aggregates(cb, "Timeout", "Timeout"):
+            oc = Origins(cb)
+            g = peel(oc.operand(rv["ops"][rv["fields"].index("is_global")]))
+            if g.kind == "const" and g.a.as_bool() is True:
+                glob = cb
+    if glob is None:
+        raise AnchorError("execute_all: the document-wide Timeout candidate closure was not found")
+    site = None
+    for bb, t in f.calls():
+        if mname(t) in ("Option::map", "Option::and_then", "Option::filter", "Option::map_or", "Option::zip"):
+            cl = peel(o.operand(t["args"][1])) if len(t["args"]) > 1 else None
+            if cl is not None and cl.kind == "agg" and cl.a[0] == "closure " + glob.path:
+                site = (bb, t)
+    if site is None:
+        raise AnchorError("execute_all: the document candidate is not built by an Option adaptor over the remaining time")
+    bb, t = site
+    ctx.check(mname(t) == "Option::map", "candidate-adaptor", f.loc(bb), "the document candidate is `remaining.map(|d| Timeout{is_global: true, d})`",
+              "the document candidate is built with %s" % mname(t))
+    # walk the chain of closures that produce `remaining`
+    src = peel(o.operand(t["args"][0]))
+    chain = []
+    body, node = f, src
+    for _ in range(6):
+        if node.kind != "call":
+            break
+        tt = node.owner.blocks[node.at[0]]["term"] if node.owner is not None and node.at else None
+        m = method_name(node.a)
+        callee = prog.body_by_def(tt["resolved"], node.owner.crate) if tt is not None and tt.get("resolved_local") else None
+        if callee is not None:
+            body = callee
+            node = peel(Origins(callee).local(0))
+            continue
+        chain.append(m)
+        if m in ("Option::map", "Option::and_then", "Option::filter"):
+            cl = peel(node.kids[1])
+            cb = prog.body_by_def(cl.a[0][len("closure "):], body.crate) if cl.kind == "agg" and cl.a[0].startswith("closure ") else None
+            if cb is not None:
+                chain += [mname(t2) for _, t2 in cb.calls()]
+            node = peel(node.kids[0])
+            continue
+        break
+    partial = [m for m in chain if m in ("Option::and_then", "Option::filter", "Instant::checked_duration_since", "Instant::checked_sub", "Duration::checked_sub", "Option::take", "Result::ok")]
+    total = [m for m in chain if m in ("Instant::duration_since", "Instant::saturating_duration_since", "Duration::saturating_sub")]
+    ctx.check(not partial and total and "Option::map" in chain, "remaining-total", f.loc(bb),
+              "remaining = deadline.map(|at| at.duration_since(now)): Some(0) once the deadline has passed, so the next test case is aborted at once",
+              "the remaining document time is computed through %s: after the deadline has passed it becomes None, which means `no document limit` - all remaining "
+              "test cases run unbounded and are reported as passed" % (partial or chain))
+
+
+def r14_8(ctx):
+    """a timed-out execution is aborted: on the way to every ExitStatus::Timeout result the child process is killed
+    (limit_time only stops *waiting*; without a kill the command keeps running after scrut reported the timeout and even
+    after scrut exited - its EXIT trap then re-creates the already removed state directory)"""
+    prog = ctx.prog
+    r = prog.impl_fn("SubprocessRunner", "Runner", "run")
+    kills = [bb for bb, t in r.calls() if mname(t) in ("Popen::kill", "Popen::terminate")]
+    touts = [(bb, si) for bb, si, rv in aggregates(r, "ExitStatus", "Timeout") if "subprocess" not in rv["adt"]]
+    if not touts:
+        raise AnchorError("SubprocessRunner::run constructs no ExitStatus::Timeout")
+    k = 0
+    for bb, si in touts:
+        k += 1
+        dom = [kb for kb in kills if r.dominates(kb, bb)]
+        ctx.check(bool(dom), "timeout-kills-child#%d" % k, stmt_loc(r, bb, si),
+                  "the child process is killed before the execution is reported as timed out",
+                  "ExitStatus::Timeout is returned without killing the child process: the command keeps running after the timeout was reported (and after scrut "
+                  "exited); a `sleep 3; touch marker` with `timeout: 1s` still creates the marker, and bash's EXIT trap re-creates the removed state directory")
+
+
 def run(ctx):
     ctx.run_rule("R14.1", "effective timeout: the `min` over Option<Timeout> candidates uses a comparator whose primary key is the Duration (derived Ord => first declared field) [type facts]", r14_1, floor=2)
     ctx.run_rule("R14.2", "the selected timeout is stored into testcase.config.timeout before Runner::run; SubprocessRunner::run passes limit_time(t) on every path on the Some(t) edge [E-FLOW, E-PATH]", r14_2, floor=4)
     ctx.run_rule("R14.3", "document limit = total_timeout.unwrap_or(DEFAULT_TOTAL_TIMEOUT), zero => unlimited, both defaults 900 s, --timeout-seconds wired [E-TABLE]", r14_3, floor=4)
     ctx.run_rule("R14.4", "execute_all: the Timeout arm always returns Err(Timeout(..)), never continues; Total exactly when is_global [E-PATH]", r14_4, floor=4)
     ctx.run_rule("R14.5", "test command: ExitStatus::Timeout => Err(TestCaseError::Timeout) + count_failed, never validated; remainder => Skipped [E-SITE]", r14_5, floor=4)
+    ctx.run_rule("R14.8", "a timed-out execution is aborted: Popen::kill dominates every ExitStatus::Timeout result of SubprocessRunner::run [E-PATH must-pass]", r14_8, floor=1)
+    ctx.run_rule("R14.7", "the remaining document time never degrades to `no limit`: deadline.map(total saturating subtraction) [E-FLOW through closure summaries]", r14_7, floor=2)
     ctx.run_rule("R14.6", "Cram: script timeout from the document limit unless zero; per-test timeouts rejected [E-SITE]", r14_6, floor=3)
